@@ -1,5 +1,6 @@
 """C20 - generated artefacts are deterministic and mutually consistent."""
 import concurrent.futures as cf
+import datetime as dt
 import importlib
 import json
 import os
@@ -359,6 +360,55 @@ def run(tier):
                     if stated_n != listed_n:
                         v.violation("c20:arduino-header-section-count", "a generated header states a number of entries different from the entries it lists",
                                     {"program": other, "scope": scope, "file": fn, "section": label, "stated": stated_n, "listed": listed_n})
+    # the validation_* artifact family (ArduinoValidationGenerator): numItems stated per zone == entries of its item array,
+    # "numZones" == declarations == definitions == test cases. The item lists are shaped like the three producers' output:
+    # unique epochs (pytz / java), coinciding epochs ('B' and 'S' samples of compare_cpp at the same instant), an empty list.
+    arval = importlib.import_module("validation.arvalgenerator")
+    transformer = importlib.import_module("tzdb.transformer")
+
+    def item(e, typ, k=0):
+        d_ = dt.datetime(2000, 1, 1) + dt.timedelta(seconds=e)
+        return {"epoch": e, "total_offset": -28800 + k, "dst_offset": 0, "y": d_.year, "M": d_.month, "d": d_.day, "h": d_.hour, "m": d_.minute,
+                "s": d_.second, "abbrev": "PST", "type": typ}
+    vdata = {
+        "America/Unique": [item(86400 * i * 31, "S") for i in range(12)],
+        "Etc/Coinciding": [item(0, "B"), item(0, "S")] + [item(86400 * i * 31, "S") for i in range(1, 12)] + [item(86400 * 334, "S"), item(86400 * 334, "Y")],
+        "Etc/Triple": [item(1000, "A"), item(1000, "B"), item(1000, "S"), item(2000, "S")],
+        "Etc/Empty": [],
+        "Etc/One": [item(5, "S")],
+    }
+    for vscope in ("extended", "basic"):
+        vd = {"start_year": 2000, "until_year": 2050, "source": "synthetic", "version": "x", "has_valid_abbrev": True, "has_valid_dst": True,
+              "test_data": vdata}
+        vout = work / ("valgen-" + vscope)
+        vout.mkdir()
+        try:
+            arval.ArduinoValidationGenerator("verif", "x", vscope, "valdb", vd, {}).generate_files(str(vout))
+        except BaseException as e:  # noqa
+            v.violation("c20:validation-generator-raises:%s" % type(e).__name__, "ArduinoValidationGenerator raised on well-formed validation data", {"error": repr(e)[:300]})
+            continue
+        files = {f.name: f.read_text() for f in vout.iterdir()}
+        cpp = next((t for n_, t in files.items() if n_.endswith("_data.cpp")), "")
+        hdr = next((t for n_, t in files.items() if n_.endswith("_data.h")), "")
+        tests = next((t for n_, t in files.items() if n_.endswith("_tests.cpp")), "")
+        arrays = {m.group(1): len(re.findall(r"^\s*\{[^{}]*\},\s*$", m.group(2), re.M))
+                  for m in re.finditer(r"kValidationItems(\w+)\[\] = \{(.*?)^\};", cpp, re.S | re.M)}
+        stated = {m.group(1): int(m.group(2)) for m in re.finditer(r"kValidationData(\w+) = \{\s*(\d+) /\*numItems\*/", cpp)}
+        for zname, items_ in vdata.items():
+            sym = transformer.normalize_name(zname)
+            counters["validation_tables_checked"] = counters.get("validation_tables_checked", 0) + 1
+            if stated.get(sym) != arrays.get(sym) or arrays.get(sym) != len(items_):
+                v.violation("c20:validation-table-count", "a generated validation table states a number of items different from the entries it holds (or from the items given)",
+                            {"scope": vscope, "zone": zname, "stated_numItems": stated.get(sym), "entries_in_array": arrays.get(sym), "items_given": len(items_)})
+        for label, text_ in (("validation_data.h", hdr), ("validation_tests.cpp", tests)):
+            m = re.search(r"^// numZones: (\d+)", text_, re.M)
+            listed = len(re.findall(r"^extern const testing::ValidationData ", text_, re.M)) if label.endswith(".h") else len(re.findall(r"^testF\(", text_, re.M))
+            counters["validation_counts_checked"] = counters.get("validation_counts_checked", 0) + 1
+            if not m or int(m.group(1)) != listed or listed != len(vdata):
+                v.violation("c20:validation-zone-count", "a generated validation file states a number of zones different from the entries it lists",
+                            {"scope": vscope, "file": label, "stated": m.group(1) if m else None, "listed": listed, "zones_given": len(vdata)})
+    if counters.get("validation_tables_checked", 0) < 10:
+        v.inconclusive_because("the validation artifacts were not examined")
     # the same inclusion on the hand-written sources (constructs one scope supports and the other does not) and on the shipped lines
     for other in ("features", "unsupported", "recon-x"):
         try:
@@ -414,7 +464,6 @@ def run(tier):
         for k, n in m["counters"].items():
             counters["zonedbpy." + k] = n
         # zinfo.py code path on a sample of dates
-        import datetime as dt
         for z in rng.sample(sorted(infos), 6 if q else 40):
             seg = [s for s in psegs[z][1:] if 946684800 + 86400 * 400 < s[0] < 2114380800]
             t_unix = (seg[len(seg) // 2][0] + 86400 * 20) if seg else 1500000000
